@@ -235,6 +235,9 @@ PROPS = {
     },
     "C20": {
         "family": "mp", "formulas": ["C20_Partition", "C20_ParentChild", "C20_PostPath"], "nt": "C20",
+        "explanation": "the model part is a constant-level check (ASSUME SymbolicOK: parent/child, trailing-slash and injectivity laws of the "
+                       "symbolic MerklePath over all strings up to the bound), so TLC reports a single state; the state/transition counts of "
+                       "this property are not meaningful, the real-code coverage is in evaluations / distinct_nontrivial",
         "bug_variants": [],
         "rule": "every string over {a,b,/} up to the length bound, under 6 injective mappings of the letters to byte strings (ascii, multi-byte "
                 "unicode, 70-byte pieces, blank/dot, case pairs, NUL/0xff bytes), plus root->child->grandchild posts on the real chain; "
